@@ -3,6 +3,7 @@ C10, real-valued instantiation: the theorems of `Rl4co.Props.C10.Logits` with `w
 shift invariance under `tanh(·)·C` clipping, and non-vacuity examples.
 -/
 import Rl4co.Props.C10.Logits
+import Rl4co.Props.C10.LogitsTight
 import Mathlib.Analysis.Complex.Exponential
 import Mathlib.Analysis.SpecialFunctions.Artanh
 import Mathlib.Tactic.NormNum
@@ -31,7 +32,8 @@ theorem shift_invariant_tanh_counterexample (C : ℝ) (hC : 0 < C) :
 
 /-- **C10 over ℝ with `exp`**: for every row, mask with a feasible action, `T > 0`, `top_k`, `top_p ≤ 1`,
 clipping function and valid oracle inputs, the emitted distribution is normalised, vanishes on masked
-actions, keeps a most likely feasible action, keeps at most `k` actions ties aside, keeps mass ≥ `top_p`;
+actions, keeps a most likely feasible action, keeps at most `k` actions ties aside, keeps mass ≥ `top_p` and
+nothing superfluous (ties aside);
 greedy returns a feasible maximiser; sampling returns feasible actions of positive probability. -/
 theorem decoding_sound_real (clip : ℝ → ℝ) (c : Cfg ℝ) (n : Nat) (x : Nat → ℝ) (mask : Nat → Bool)
     (kth : Nat) (σ : Nat → Nat) (hv : Valid clip c n x mask kth σ) (hp1 : c.topP ≤ 1) :
@@ -42,12 +44,14 @@ theorem decoding_sound_real (clip : ℝ → ℝ) (c : Cfg ℝ) (n : Nat) (x : Na
     Spec.Decode.TopkCard n c.topK (score clip c x) (processLogits Real.exp clip c n x mask kth σ).kept ∧
     Spec.Decode.ToppMass n (softmaxN n Real.exp (afterK clip c n x mask kth).get).get
       (processLogits Real.exp clip c n x mask kth σ).kept c.topP 0 ∧
+    (0 < c.topP → Spec.Decode.ToppTight n (softmaxN n Real.exp (afterK clip c n x mask kth).get).get
+      (processLogits Real.exp clip c n x mask kth σ).kept c.topP 0) ∧
     (∀ a, GreedyValid n (processLogits Real.exp clip c n x mask kth σ).lg a →
       greedy mask a = some a ∧ Spec.Decode.GreedyOk n mask (processLogits Real.exp clip c n x mask kth σ).prob a) ∧
     (∀ a, SampleValid n (processLogits Real.exp clip c n x mask kth σ).prob a →
       Spec.Decode.SampleOk n mask (processLogits Real.exp clip c n x mask kth σ).kept a) :=
   ⟨probs_sum_one expLike_exp hv, masked_zero, argmax_kept expLike_exp hv, topk_card_le hv,
-   topp_mass_ge expLike_exp hv hp1,
+   topp_mass_ge expLike_exp hv hp1, fun hp0 => topp_tight expLike_exp hv hp0,
    fun a ha => ⟨(greedy_is_max expLike_exp hv a ha).1, (greedy_is_max expLike_exp hv a ha).2.1⟩,
    fun a ha => (sample_feasible expLike_exp hv a ha []).1⟩
 
@@ -86,7 +90,7 @@ theorem ex_valid : Valid id exCfg 4 exX exMask 1 exSigma := by
   · norm_num [exCfg]
   · exact ⟨0, by omega, rfl⟩
   · right
-    refine ⟨by omega, ?_, ?_⟩
+    refine (kthValid_iff _ _ _ _).mpr ⟨by omega, ?_, ?_⟩
     · simp only [ex_pre]
       rw [show (4 : Nat) = 0 + 1 + 1 + 1 + 1 from rfl]
       simp only [cnt_succ]
@@ -96,7 +100,7 @@ theorem ex_valid : Valid id exCfg 4 exX exMask 1 exSigma := by
       simp only [cnt_succ]
       norm_num [cnt, exX, leO, ltO, exCfg]
   · right
-    refine ⟨?_, ?_, ?_⟩
+    refine (sortValid_iff _ _ _).mpr ⟨?_, ?_, ?_⟩
     · intro i hi; simp only [exSigma]; split <;> omega
     · intro i hi i' hi' h; simp only [exSigma] at h; split at h <;> split at h <;> omega
     · intro i hi hi'
@@ -109,8 +113,8 @@ example : Spec.Decode.IsDist 4 (processLogits Real.exp id exCfg 4 exX exMask 1 e
 
 example : ∃ a, GreedyValid 4 (processLogits Real.exp id exCfg 4 exX exMask 1 exSigma).lg a := by
   obtain ⟨j, hj, hmax, hlg, hs⟩ := exists_max_kept expLike_exp ex_valid (w := Real.exp)
-  refine ⟨j, hj, fun i hi => ?_⟩
-  rw [leO_iff, hlg]
+  refine ⟨j, (greedyValid_iff _ _ _).mpr ⟨hj, fun i hi => ?_⟩⟩
+  rw [leO_iff, hlg, lg_eq]
   exact le_trans (le_trans (topP_le _ _ _ _ _ i) (afterK_le_pre _ _ _ _ _ _ i)) (hmax i hi)
 
 end Rl4co.Decode
